@@ -527,7 +527,7 @@ package pppoe
 //@   ghost gA bool
 //@   ghost gB bool
 //@   ghost gT bool
-//@   owns mu: state config negotiated restartCount identifier lastIdentifier gA gB gT
+//@   owns mu: state config negotiated restartCount identifier lastIdentifier dynamicPeerIP gA gB gT
 //@   owns timerMu: restartTimer
 //@   inv opened: self.state == IPCPStateOpened ==> self.gA && self.gB
 //@   inv ackrcvd: self.state == IPCPStateAckRcvd ==> self.gB
@@ -727,6 +727,12 @@ package pppoe
 
 //@ func (ipcp *IPCPStateMachine) Down
 //@   ensures ipcp.state != IPCPStateOpened
+// "IPCP acknowledges only the address assigned to the session": an address that was obtained from the
+// pool and has just been given back (the pool may assign it to another session) is no longer the
+// address this automaton negotiates; the next Up allocates afresh
+//@   ghost pppRel mathint = 0
+//@   ensures pppRel <= 1
+//@   ensures pppRel == 1 && locked(ipcp.dynamicPeerIP) ==> ipcp.config.PeerIP == nil && ipcp.negotiated.PeerIP == nil && !ipcp.dynamicPeerIP
 //@   ensures ipcpTerm(locked(ipcp.state)) && ipcpTerm(ipcp.state) ==> ipcp.restartCount <= locked(ipcp.restartCount)
 //@   ensures ipcpTerm(ipcp.state) ==> ipcpTerm(locked(ipcp.state))
 
@@ -737,6 +743,8 @@ package pppoe
 
 //@ func (ipcp *IPCPStateMachine) Up
 //@   ensures ipcp.state == IPCPStateOpened ==> locked(ipcp.state) == IPCPStateOpened
+//@   ensures locked(ipcp.config.PeerIP) == nil && locked(ipcp.config.IPPool) != nil && ipcp.config.PeerIP != nil ==> ipcp.dynamicPeerIP
+//@   ensures locked(ipcp.config.PeerIP) != nil ==> ipcp.config.PeerIP == locked(ipcp.config.PeerIP) && ipcp.dynamicPeerIP == locked(ipcp.dynamicPeerIP)
 //@   ensures ipcpTerm(locked(ipcp.state)) && ipcpTerm(ipcp.state) ==> ipcp.restartCount <= locked(ipcp.restartCount)
 //@   ensures ipcpTerm(ipcp.state) ==> ipcpTerm(locked(ipcp.state))
 
